@@ -15,6 +15,12 @@ def _ids_checked(inst, ops):
     return out
 
 
+def _both_styles(pos, kw):
+    """The same public call written positionally and with keyword arguments
+    (documented parameter names) must give the same answer."""
+    return pos if pos == kw else ("keyword-call-differs", pos, kw)
+
+
 def q_current_time(d, inst):
     return d.current_time()
 
@@ -61,29 +67,44 @@ def q_ongoing_operations(d, inst):
 
 def q_earliest_start_times(d, inst):
     """earliest_start_time of every ready operation (job order)."""
-    out = []
-    for j, p in enumerate(d.job_next_operation_index):
+    out, kw = [], []
+    nxt = list(d.job_next_operation_index)
+    for j, p in enumerate(nxt):
         if p < len(inst.jobs[j]):
             out.append(d.earliest_start_time(inst.jobs[j][p]))
-    return out
+    for j, p in enumerate(nxt):
+        if p < len(inst.jobs[j]):
+            kw.append(d.earliest_start_time(operation=inst.jobs[j][p]))
+    return _both_styles(out, kw)
 
 
 def q_next_operations(d, inst):
-    out = []
+    out, kw = [], []
     for j in range(inst.num_jobs):
         try:
             out.append(d.next_operation(j).operation_id)
         except Exception as e:
             out.append(type(e).__name__)
-    return out
+    for j in range(inst.num_jobs):
+        try:
+            kw.append(d.next_operation(job_id=j).operation_id)
+        except Exception as e:
+            kw.append(type(e).__name__)
+    return _both_styles(out, kw)
 
 
 def q_is_scheduled(d, inst):
-    return [d.is_scheduled(o) for job in inst.jobs for o in job]
+    return _both_styles(
+        [d.is_scheduled(o) for job in inst.jobs for o in job],
+        [d.is_scheduled(operation=o) for job in inst.jobs for o in job],
+    )
 
 
 def q_is_ready(d, inst):
-    return [d.is_operation_ready(o) for job in inst.jobs for o in job]
+    return _both_styles(
+        [d.is_operation_ready(o) for job in inst.jobs for o in job],
+        [d.is_operation_ready(operation=o) for job in inst.jobs for o in job],
+    )
 
 
 def q_start_times(d, inst):
@@ -93,7 +114,12 @@ def q_start_times(d, inst):
         if p < len(inst.jobs[j]):
             o = inst.jobs[j][p]
             out.append(tuple(d.start_time(o, m) for m in o.machines))
-    return out
+    kw = []
+    for j, p in enumerate(list(d.job_next_operation_index)):
+        if p < len(inst.jobs[j]):
+            o = inst.jobs[j][p]
+            kw.append(tuple(d.start_time(operation=o, machine_id=m) for m in o.machines))
+    return _both_styles(out, kw)
 
 
 # name, call, spec(st, filters)
